@@ -1823,7 +1823,7 @@ class WBEMConnection:  # pylint: disable=too-many-instance-attributes
         for recorder in self._operation_recorders:
             recorder.reset(pull_op)
 
-    def operation_recorder_stage_pywbem_args(self, method, **kwargs):
+    def operation_recorder_stage_pywbem_args(self, _method=None, /, **kwargs):
         """
         **Internal:** Low-level method used by the operation-specific
         methods of this class.
@@ -1832,9 +1832,16 @@ class WBEMConnection:  # pylint: disable=too-many-instance-attributes
 
         It forwards the operation method name and arguments to all recorders of
         this connection.
+
+        The operation method name can be specified as a positional argument,
+        or as a keyword argument named `method`. InvokeMethod() specifies it
+        as a positional argument, because its keyword arguments are the input
+        parameters of the CIM method, which may have any name.
         """
+        if _method is None:
+            _method = kwargs.pop('method')
         for recorder in self._operation_recorders:
-            recorder.stage_pywbem_args(method, **kwargs)
+            recorder.stage_pywbem_args(_method, **kwargs)
 
     def operation_recorder_stage_result(self, ret, exc):
         """
@@ -4669,7 +4676,7 @@ class WBEMConnection:  # pylint: disable=too-many-instance-attributes
         if self._operation_recorders:
             self.operation_recorder_reset()
             self.operation_recorder_stage_pywbem_args(
-                method='InvokeMethod',
+                'InvokeMethod',
                 MethodName=MethodName,
                 ObjectName=ObjectName,
                 Params=Params,
